@@ -114,6 +114,21 @@ func c12Worlds() []c12World {
 		mixed("fault/mixed-chain:leaf-issued-by-processor-ca,platform-ca-carried", "processor", T.Inter, proc, pk)
 		mixed("fault/mixed-chain:leaf-issued-by-platform-ca,processor-ca-carried", "platform", proc, T.Inter, T.InterKey)
 	}
+	{ // the TCB signing certificate is not yet valid at the TCB Info / QE Identity time but is at the (later) CRL times:
+		// rejected with collateral, and turning revocation checking on as well cannot make it acceptable
+		w := world.Honest("T")
+		late := world.MakeCert(world.CertSpec{CN: world.CNTcb, Key: T.TcbKey, Serial: big.NewInt(0x0c12), NotBefore: world.T0.AddDate(0, 0, 1), NotAfter: world.T0.AddDate(5, 0, 0)}, T.Root, T.RootKey)
+		w.TcbHdr = map[string][]string{world.HdrTcbInfo: {world.IssuerChainHeader(late, T.Root)}}
+		w.QeHdr = map[string][]string{world.HdrQeIdentity: {world.IssuerChainHeader(late, T.Root)}}
+		w.BuildGetter()
+		w.Now = world.TimeSetAt(world.T0)
+		w.Now.PckCrl, w.Now.RootCaCrl = world.T0.AddDate(0, 0, 2), world.T0.AddDate(0, 0, 2)
+		add("expiry/collateral-signer-valid-only-from-a-day-later,crl-times-two-days-later", w, nil)
+		w2 := world.Honest("T")
+		w2.Now = world.TimeSetAt(world.T0)
+		w2.Now.PckCrl, w2.Now.RootCaCrl = world.T0.AddDate(0, 0, 2), world.T0.AddDate(0, 0, 2)
+		add("honest/crl-times-two-days-later", w2, nil)
+	}
 	base := func() *world.World { return world.Honest("T") }
 	{ // signature-chain faults
 		w := base()
